@@ -290,6 +290,15 @@ class TransformChain(ComposableTransform):
         """
         return reduce(lambda x_i, tr: tr._apply(x_i), self.transforms, x)
 
+    def _apply_batched(self, x, batch_size, **kwargs):
+        # A member of the chain may be piecewise affine. Batch the way
+        # AbstractPWA does, so that a TriangleContainmentError raised by any
+        # batch reports on ALL the points that were passed, and not just on
+        # the points of the first failing batch.
+        from menpo.transform.piecewiseaffine.base import AbstractPWA
+
+        return AbstractPWA._apply_batched(self, x, batch_size, **kwargs)
+
     @property
     def composes_inplace_with(self):
         r"""
